@@ -51,6 +51,10 @@ pub fn run(run: &'static Run) {
     let mut ports: Vec<&str> = vec!["", ":0", ":21", ":22", ":23", ":79", ":80", ":81", ":442", ":443", ":444", ":9417", ":9418", ":9419", ":65535", ":"];
     let mut paths: Vec<&str> =
         vec!["/p", "p", "~u/p", "/~u/p", "/", "", "/a b", "/a%20b", "/a:b", "a:b", "/p/", "//p", "/p?q=1", "/p#f", "/é", "/-p", "-p"];
+    // line terminators as leading / inner / trailing path bytes, up to three in a row (forms that keep the path verbatim must keep them all)
+    paths.extend([
+        "/p\n", "/p\n\n", "/p\n\n\n", "/p\r", "/p\r\r", "/p\r\n", "/p\r\n\n", "/p\n\r\n", "/p\r\n\r\n", "p\n\n", "\n/p", "\n\n/p", "\r/p", "\r\n/p", "/a\nb", "/a\n\nb", "/a\r\nb", "/a\rb", "\n", "\n\n", "\r\n\n",
+    ]);
     let wraps: Vec<(&str, &str)> = if thorough { vec![("", ""), (" ", ""), ("", "\n"), ("", " ")] } else { vec![("", "")] };
     if thorough {
         users.extend(["u%3a:p%40w@", "é@", "u u@"]);
@@ -60,9 +64,10 @@ pub fn run(run: &'static Run) {
     }
     let locals: Vec<&[u8]> = vec![
         b"/p", b"p", b"./a:b", b"a/b:c", b" p", b"p ", b"~/p", b"../p", b"C:/p", b"-p", "é".as_bytes(), b"a b", b"\xff", b"/a\xffb", b"", b".", b"/", b"a\nb", b"./-p", b"a/b://c", b"/a://b",
+        b"/p\n", b"/p\n\n", b"/p\n\n\n", b"/p\r\n", b"/p\r\n\n", b"/p\n\r\n", b"/p\r", b"/p\r\r", b"p\n\n", b"\n/p", b"\n\n/p", b"\r\n/p", b"\n", b"\n\n", b"\r\n\n", b"/a\n\nb", b"/a\r\nb",
     ];
     run.rule(format!(
-        "inputs = {{{} schemes + scp-like (no scheme)}} x user {:?} x host {:?} x port {:?} x path {:?} x whitespace wrap {:?}, plus {} local-path forms (incl. non-UTF-8, ':' after '/', '://' after '/'). \
+        "inputs = {{{} schemes + scp-like (no scheme)}} x user {:?} x host {:?} x port {:?} x path {:?} x whitespace wrap {:?}, plus {} local-path forms (incl. non-UTF-8, ':' after '/', '://' after '/', leading/inner/trailing LF and CR runs up to 3). \
          non-trivial = the input parses, and parse(to_bstring(u)) == u with a stable second serialization",
         schemes.len(),
         users,
